@@ -1,0 +1,80 @@
+//go:build verif
+
+package kafka
+
+// Add-only export file for the verification harness in /verif (property C12:
+// request routing of the Transport).  Nothing here is compiled into normal builds.
+
+import (
+	"context"
+	"net"
+	"time"
+
+	"github.com/segmentio/kafka-go/protocol"
+	meta "github.com/segmentio/kafka-go/protocol/metadata"
+)
+
+// VerifFilterMetadataResponse exposes filterMetadataResponse.
+func VerifFilterMetadataResponse(req *meta.Request, res *meta.Response) *meta.Response {
+	return filterMetadataResponse(req, res)
+}
+
+// VerifMakeLayout exposes makeLayout.
+func VerifMakeLayout(res *meta.Response) protocol.Cluster { return makeLayout(res) }
+
+// VerifPool is a connPool without its discover goroutine: the harness plays
+// the part of discover by calling Update.
+type VerifPool struct {
+	p   *connPool
+	ctx context.Context
+}
+
+// VerifNewPool builds a pool whose control connection group targets addr and
+// whose connections are established with dial.
+func VerifNewPool(dial func(context.Context, string, string) (net.Conn, error), addr net.Addr) *VerifPool {
+	p := &connPool{
+		refc:        2,
+		dial:        dial,
+		dialTimeout: 2 * time.Second,
+		idleTimeout: 30 * time.Second,
+		metadataTTL: 6 * time.Second,
+		clientID:    "verif",
+		ready:       make(event),
+		wake:        make(chan event),
+		conns:       make(map[int32]*connGroup),
+		cancel:      func() {},
+	}
+	p.ctrl = p.newConnGroup(addr)
+	return &VerifPool{p: p, ctx: context.Background()}
+}
+
+// Update calls (*connPool).update.
+func (v *VerifPool) Update(md *meta.Response, err error) { v.p.update(v.ctx, md, err) }
+
+// State returns the cached state, the brokers of the connection groups and
+// whether the pool was marked ready.
+func (v *VerifPool) State() (md *meta.Response, err error, layout protocol.Cluster, conns map[int32]Broker, ready bool) {
+	st := v.p.grabState()
+	conns = make(map[int32]Broker)
+	v.p.mutex.RLock()
+	for id, g := range v.p.conns {
+		conns[id] = g.broker
+	}
+	v.p.mutex.RUnlock()
+	select {
+	case <-v.p.ready:
+		ready = true
+	default:
+	}
+	return st.metadata, st.err, st.layout, conns, ready
+}
+
+// SendRequest calls (*connPool).sendRequest with the current state and waits.
+func (v *VerifPool) SendRequest(ctx context.Context, req Request) (Response, error) {
+	return v.p.sendRequest(ctx, req, v.p.grabState()).await(ctx)
+}
+
+// RoundTrip calls (*connPool).roundTrip.
+func (v *VerifPool) RoundTrip(ctx context.Context, req Request) (Response, error) {
+	return v.p.roundTrip(ctx, req)
+}
